@@ -165,6 +165,8 @@ def _legal_opts(draw, kind, family):
         o["argm"] = tuple(_pick(draw, arg_matcher_variants(c)) for c in KINDS[kind].params)
     if _rare(draw, 7):
         o["long_macros"] = True
+    if family in CALL_FAMILIES and _rare(draw, 5):
+        o["vform"] = True
     return o
 
 @st.composite
@@ -380,6 +382,9 @@ def single_fault(row):
         if _rare(draw, 7):
             o = dict(p.opts); o["long_macros"] = True
             p = make_program(p.kind, p.family, list(p.clauses), **o)
+        if p.family in CALL_FAMILIES and _rare(draw, 5):
+            o = dict(p.opts); o["vform"] = True
+            p = make_program(p.kind, p.family, list(p.clauses), **o)
         return p
     return strat()
 
@@ -432,6 +437,8 @@ def free_programs(draw):
     if _rare(draw, 11) and not opts.get("move"):
         opts["deathwatched"] = True
         opts["virtual_dtor"] = draw(st.booleans())
+    if _rare(draw, 6):
+        opts["vform"] = True
     return make_program(kind, family, clauses, **opts)
 
 def legal_pair_programs():
@@ -489,9 +496,15 @@ def legal_family_programs():
             for ex in extras:
                 items = list(ex) + ([] if base == "FORBID_CALL" else term)
                 for long_ in (False, True):
-                    pr = make_program(kind, family, items, **({"long_macros": True} if long_ else {}))
-                    if not evaluate(pr):
-                        out.append(pr)
+                    for vform in (False, True):
+                        o = {}
+                        if long_:
+                            o["long_macros"] = True
+                        if vform:
+                            o["vform"] = True
+                        pr = make_program(kind, family, items, **o)
+                        if not evaluate(pr):
+                            out.append(pr)
     for family in DESTRUCTION_FAMILIES:
         for items in ([], [seq_clauses()[0]]):
             for long_ in (False, True):
@@ -636,10 +649,17 @@ def render_body(p, ns):
         argm = p.opt("argm") or tuple("wild" for _ in K.params)
         args = ", ".join(fix(ARG_TEXT[c][m]) for c, m in zip(K.params, argm))
         head = "%s(co, f(%s))" % (M(p.family), args)
-    lines.append("  %s%s" % ("auto e = " if named else "", head))
-    for op, v in p.clauses:
-        lines.append("    .%s(%s)" % (M(op), fix(_clause_text(p.kind, op, v))))
-    lines[-1] += ";"
+    if p.opt("vform") and p.family in CALL_FAMILIES:
+        # variadic spelling: the clauses are further macro arguments
+        lines.append("  %s%s(co, f(%s)%s" % ("auto e = " if named else "", M(p.family + "_V"), args, "," if p.clauses else ""))
+        for op, v in p.clauses:
+            lines.append("    .%s(%s)" % (M(op), fix(_clause_text(p.kind, op, v))))
+        lines[-1] += ");"
+    else:
+        lines.append("  %s%s" % ("auto e = " if named else "", head))
+        for op, v in p.clauses:
+            lines.append("    .%s(%s)" % (M(op), fix(_clause_text(p.kind, op, v))))
+        lines[-1] += ";"
     if named:
         lines.append("  (void)e;")
     lines += ["}", "}"]
